@@ -247,8 +247,6 @@ def rnd_settings(rng):
     st = dict(clear=rng.random() < 0.4, shrink=rng.random() < 0.3, g90e=rng.random() < 0.3,
               enter=rng.choice([[], [], ['M117 in'], ['M106 S0', 'M117 skip'], ['@OCTOLAPSE TAKE-SNAPSHOT', 'M117 in'], ['SET_PIN PIN=fan VALUE=0']]),
               exit=rng.choice([[], [], ['M117 out'], ['M106 S255', 'G4 P1'], ['M117 out', '@fan_restore'], ['RESTORE_GCODE_STATE NAME=skip', 'M400']]), ext=ext)
-    if st['enter'] and rng.random() < 0.12:
-        st['exit'] = list(st['enter'])          # the same script on both sides
     k = rng.random()
     if k < 0.25:
         st['atc'] = DEFAULT_ATC + [('Purge', None, 'disable_exclusion'), ('Resume', '^\\s*go', 'enable_exclusion')]
@@ -270,6 +268,13 @@ def rnd_settings(rng):
             st[which + '_text'] = eol.join(lines)
         elif not st[which] and rng.random() < 0.2:
             st[which + '_text'] = rng.choice(['; nothing to do here\n', '\n\n', '   \r\n;x', ';'])      # a script of comments and blank lines only: no script
+    if st['enter'] and rng.random() < 0.15:
+        # the same script on both sides, character for character
+        st['exit'] = list(st['enter'])
+        if 'enter_text' in st:
+            st['exit_text'] = st['enter_text']
+        else:
+            st.pop('exit_text', None)
     return st
 
 
@@ -522,6 +527,10 @@ def hook_history(rng):
             evs.append(('cmd', 'G1 %s%s' % (ax, a)))
         if rng.random() < 0.5:
             evs.append(('cmd', 'G90'))
+    elif entry < 0.65 and entry >= 0.55:
+        # the tool leaves the region while exclusion is off; switched on again, a single-axis move stays outside (judged from where the tool really is)
+        evs += [('cmd', 'G1 X15 Y15 E1.5'), ('at', '@ExcludeRegion off', False), ('cmd', rng.choice(['G1 X40 Y40 E2', 'G0 X40 Y40', 'G1 X40 Y5 E2'])),
+                ('at', '@ExcludeRegion on', False), ('cmd', rng.choice(['G1 Y16 E2.5', 'G1 Y12', 'G1 Y18 E2.2'])), ('cmd', 'G1 X15 E3')]
     elif entry < 0.55:
         # units switched inside the episode and Z moved afterwards: whether Z goes first or last on the way back is decided in millimetres
         evs += [('cmd', 'G1 X15 Y15 E1.5'), ('cmd', 'G20'), ('cmd', rng.choice(['G1 Z0.02', 'G1 Z0.005', 'G1 Z0.3', 'G1 Z0.011811']))]
@@ -529,7 +538,7 @@ def hook_history(rng):
             evs.append(('cmd', 'G21'))
     else:
         evs.append(('cmd', 'G1 X15 Y15 E1.5'))
-    for _ in range(rng.randint(0, 4) if entry >= 0.55 else rng.randint(0, 1)):
+    for _ in range(rng.randint(0, 4) if entry >= 0.65 else rng.randint(0, 1)):
         k = rng.random()
         if k < 0.25:
             evs.append(('api', 'deleteExcludeRegion', dict(id='h1'), False))
@@ -542,7 +551,7 @@ def hook_history(rng):
         elif k < 0.8:
             evs.append(('at', rng.choice(['@ExcludeRegion off', '@ExcludeRegion on']), False))
         else:
-            evs.append(('cmd', rng.choice(['G1 X16 Y16 E2', 'G1 X12 Y12'])))
+            evs.append(('cmd', rng.choice(['G1 X16 Y16 E2', 'G1 X12 Y12', 'G1 X40 Y40', 'G1 X45', 'G1 X15 Y15 E2.5'])))
     evs.append(('script', 'gcode', 'afterPrintDone'))
     if rng.random() < 0.5:
         evs.append(('script', 'gcode', 'afterPrintDone'))
